@@ -462,3 +462,15 @@ def gen_text(rng, adapter, kind=None):
     if not in_scope(text):
         text = HUGE_EXP.sub(lambda m: m.group(0)[:3], text)
     return kind, text
+
+
+# ----------------------------------------------------------- parallel model
+def model_parallel(ck, ops, driver=None, chunk=1500, workers=8):
+    """ck.model on chunks in parallel driver processes (answers in order)"""
+    if len(ops) <= chunk:
+        return ck.model(ops, driver)
+    from concurrent.futures import ThreadPoolExecutor
+    parts = [ops[i:i + chunk] for i in range(0, len(ops), chunk)]
+    with ThreadPoolExecutor(max_workers=workers) as ex:
+        res = list(ex.map(lambda p: ck.model(p, driver), parts))
+    return [a for r in res for a in r]
